@@ -64,7 +64,7 @@ func NonEmptyCString(maxLen int) *rapid.Generator[string] {
 	})
 }
 
-var someCodes = []string{"XXUUU", "XX000", "00000", "01000", "0A000", "22012", "23505", "28P01", "28000", "42601", "42P01", "54000", "57014", "58000", "XX000", "XX001", "P0001", "08003", "26000"}
+var someCodes = []string{"XXUUU", "XX000", "", "42", "XX", "P0001X", "00000", "01000", "0A000", "22012", "23505", "28P01", "28000", "42601", "42P01", "54000", "57014", "58000", "XX000", "XX001", "P0001", "08003", "26000"}
 var Severities = []string{"ERROR", "FATAL", "PANIC", "WARNING", "NOTICE", "DEBUG", "INFO", "LOG"}
 var lineBounds = []int32{0, 1, 2, 9, 10, 255, 256, 257, 258, 65535, 65536, 16777216, math.MaxInt32, math.MaxInt32 - 1, -1, -256, math.MinInt32, 0x00010001, 0x01000000, 0x00000100}
 
@@ -102,8 +102,14 @@ func ErrSpec(maxLayers int) *rapid.Generator[*script.ErrSpec] {
 	return rapid.Custom(func(t *rapid.T) *script.ErrSpec {
 		e := &script.ErrSpec{Base: CString(1000).Draw(t, "base")}
 		e.Layers = rapid.SliceOfN(Layer(), 0, maxLayers).Draw(t, "layers")
+		e.Wraps = wraps(t)
 		return e
 	})
+}
+
+// wraps: now and then the base error wraps a sentinel that transport code also uses.
+func wraps(t *rapid.T) string {
+	return rapid.SampledFrom([]string{"", "", "", "", "", "eof", "unexpected-eof", "closed", "canceled", "deadline"}).Draw(t, "wraps")
 }
 
 // SmallErr generates a lightly decorated error (used where the error content
@@ -117,6 +123,7 @@ func SmallErr() *rapid.Generator[*script.ErrSpec] {
 		if rapid.IntRange(0, 3).Draw(t, "sev") == 0 {
 			e.Layers = append(e.Layers, script.Layer{K: "severity", S: rapid.SampledFrom(Severities).Draw(t, "severity")})
 		}
+		e.Wraps = wraps(t)
 		return e
 	})
 }
